@@ -23,6 +23,10 @@ def plans(quick):
                  checks=[dict(steps=4, slots=2, rcs=['v1', 'v2'])],
                  gen=dict(steps=4, slots=1, lists=[['v2'], ['v3'], ['v1', 'v2']]), cover_limit=120, walks=40,
                  sim=dict(num=60, depth=12)),
+            # ~pattern inputs and optional inputs that some configurations provide and others do not
+            dict(family='wiring',
+                 gen=dict(steps=4, slots=1, lists=[['w1'], ['w3'], ['w1', 'w2'], ['w2', 'w3']]), cover_limit=120, walks=40,
+                 sim=dict(num=60, depth=12)),
         ]
     return [
         dict(family='kinds', opts={'gens': True}, checks=[dict(steps=4, slots=1)], gen=dict(steps=4, slots=1), walks=200,
@@ -30,7 +34,7 @@ def plans(quick):
     ] + [
         dict(family=f, checks=[dict(steps=5, slots=2), dict(steps=7, slots=2, force=False, fail=False, count=True)],
              gen=dict(steps=(4 if f == 'chain' else 5), slots=1), walks=300, walk_len=16, sim=dict(num=1500, depth=16))
-        for f in ('chain', 'mounts', 'diamond', 'levels')
+        for f in ('chain', 'mounts', 'diamond', 'levels', 'wiring')
     ]
 
 
